@@ -1467,7 +1467,7 @@ class Unit:
         elif k == 'DeclStmt':
             for v in self.kids(n):
                 if v['kind'] == 'VarDecl': self.vardecl(v, ind)
-                elif v['kind'] in ('TypedefDecl', 'TypeAliasDecl', 'StaticAssertDecl', 'UsingDecl'): pass
+                elif v['kind'] in ('TypedefDecl', 'TypeAliasDecl', 'StaticAssertDecl', 'UsingDecl', 'UsingDirectiveDecl'): pass
                 else: raise Unsupported('local declaration kind ' + v['kind'])
         elif k == 'DoStmt':
             body, cond = self.kids(n)
@@ -1776,6 +1776,8 @@ class Unit:
             dflt = ks[0] if ks else None
             if e is not None and e['kind'] == 'CXXDefaultInitExpr': e = dflt
             if e is None: e = dflt
+            if (e is None or (self.strip_tmp(e)['kind'] == 'CXXConstructExpr' and not self.kids(self.strip_tmp(e)))) and re.search(r'\((unnamed|anonymous) (struct|union) at ', f.get('type', {}).get('qualType', '')):
+                continue    # member of an unnamed plain struct type without initialiser: left uninitialised exactly like C++
             ft, _ = self.decl_text(f, fname)
             ct = ft.rsplit(' ', 1)[0]
             if self.models and self.models.is_model_type(ct) and '*' not in ct:
